@@ -805,6 +805,9 @@ pub mod verif_hooks_bgpin {
         pub live_sessions: Arc<Mutex<LiveSessions>>,
         pub ingresses: Arc<ingress::Register>,
         pub task: tokio::task::JoinHandle<Result<(), Terminated>>,
+        /// the unit's own metrics (listener bound / connection accepted
+        /// counters), so a harness can tell that *this* unit is listening
+        pub metrics: Arc<BgpTcpInMetrics>,
     }
 
     /// A `BgpTcpIn` from the TOML of a `bgp-tcp-in` unit (without `type`).
@@ -836,6 +839,7 @@ pub mod verif_hooks_bgpin {
             "verif-bgp-in",
             metrics.clone(),
         ));
+        let unit_metrics = metrics.clone();
         let runner = BgpTcpInRunner::new(
             unit,
             gate,
@@ -853,7 +857,16 @@ pub mod verif_hooks_bgpin {
                 )
                 .await
         });
-        (BgpInUnit { agent, live_sessions, ingresses, task }, link)
+        (
+            BgpInUnit {
+                agent,
+                live_sessions,
+                ingresses,
+                task,
+                metrics: unit_metrics,
+            },
+            link,
+        )
     }
 
     impl BgpInUnit {
@@ -868,6 +881,13 @@ pub mod verif_hooks_bgpin {
                 .collect();
             v.sort();
             v
+        }
+
+        /// How often this unit's listener was bound (`listener_listening`).
+        pub fn listener_bound_count(&self) -> usize {
+            self.metrics
+                .listener_bound_count
+                .load(std::sync::atomic::Ordering::SeqCst)
         }
 
         /// `GateAgent::reconfigure` with a new `BgpTcpIn` and a new gate.
